@@ -821,6 +821,10 @@ static enum cc_stat expand_capacity(CC_ArraySized *ar)
             new_capacity = CC_MAX_ELEMENTS;
         }
     }
+    /* The buffer size in bytes must not wrap around. */
+    if (new_capacity > CC_MAX_ELEMENTS / ar->data_length) {
+        return CC_ERR_MAX_CAPACITY;
+    }
     uint8_t *new_buff = ar->mem_alloc(new_capacity * ar->data_length);
 
     if (!new_buff) {
